@@ -269,6 +269,18 @@ def regression_cases():
     # 5c6ce921: arrays of records that hold a type-parameter array
     out.append(("array-of-tparam-array-holder", "hpp", "template <typename A> struct T0 { A arr[40]; };\nstruct C1 { T0<short> m1; };\nstruct C3 { C1 m1[2]; C1 m2[2][3]; };\n"
                 "struct C4 { C1 m; };\ntypedef C1 C1arr[4];\nstruct C5 { C1arr a; };\n", []))
+    # helper types (__BindgenBitfieldUnit, __IncompleteArrayField, __BindgenComplex, __BindgenOpaqueArray, __BindgenUnionField) needed ONLY by
+    # items of a nested namespace: the helper lives in the root module and must still be emitted
+    helpers_ = [("bitfield", "struct S { unsigned x : 3; int y : 5; }; namespace deep { struct T { unsigned long long z : 40; }; }"),
+                ("fam", "struct F { int n; int data[]; }; struct Z { int k; char zero[0]; };"),
+                ("complex", "struct Cx { double _Complex d; float _Complex f; };"),
+                ("opaque-array", "struct OA { char c; long long ll __attribute__((aligned(16))); char d; };"),
+                ("union", "union U { int i; float f; }; struct HU { union U u; union { char a; short b; }; };")]
+    for hn, body in helpers_:
+        for fl in ([], ["--enable-cxx-namespaces"]):
+            out.append(("ns-helper-%s%s" % (hn, "-ns" if fl else ""), "hpp", "namespace only_here { %s }\nnamespace other { struct Plain { int a; }; }\n" % body, fl))
+    out.append(("ns-helper-union-field", "hpp", "namespace only_here { union U { int i; float f; }; struct HU { union U u; }; }\n",
+                ["--enable-cxx-namespaces", "--default-non-copy-union-style", "bindgen_wrapper", "--bindgen-wrapper-union", ".*"]))
     return out
 
 
